@@ -48,7 +48,13 @@ def expr(F, B, op, depth=0):
 def place_expr(F, B, pl, depth):
     if pl["p"]:
         # projection of a local: describe root + field names
-        root = local_expr(F, B, pl["l"], depth + 1)
+        return project(local_expr(F, B, pl["l"], depth + 1), pl)
+    return local_expr(F, B, pl["l"], depth)
+
+
+def project(root, pl):
+    """Expression of place `pl` given the expression of its base local."""
+    if True:
         names = []
         for pe in pl["p"]:
             if pe == "deref":
@@ -66,12 +72,20 @@ def place_expr(F, B, pl, depth):
         while names and names[0] == "*" and root[0] == "addr" and (len(root) < 4 or root[3] == "raw"):
             root = root[1]
             names = names[1:]
+        # a field of a struct value that was just built: `Allocation { inner: p }.inner` is `p` (also behind `&`: `(*&a).inner`)
+        for _ in range(4):
+            r2, n2 = root, names
+            while n2 and n2[0] == "*" and r2[0] == "addr":
+                r2, n2 = r2[1], n2[1:]
+            if n2 and r2[0] == "agg" and r2[1] == "adt" and len(r2) > 5 and n2[0] in r2[5] and len(r2[5]) == len(r2[4]):
+                root, names = r2[4][r2[5].index(n2[0])], n2[1:]
+            else:
+                break
         if not names:
             return root
         if root[0] == "proj":
             return ("proj", root[1], tuple(root[2]) + tuple(names))
         return ("proj", root, tuple(names))
-    return local_expr(F, B, pl["l"], depth)
 
 
 def local_expr(F, B, l, depth):
@@ -130,11 +144,11 @@ def local_expr(F, B, l, depth):
     if k == "binop":
         return ("bin", rv["op"], expr(F, B, rv["a"], depth + 1), expr(F, B, rv["b"], depth + 1))
     if k == "unop":
-        return ("un", rv["op"], expr(F, B, rv["a"], depth + 1))
+        return ("un", rv["op"], expr(F, B, rv["a"], depth + 1), F.ts(B.b["locals"][l]["ty"]))
     if k in ("ref", "rawptr"):
         return ("addr", place_expr(F, B, rv["place"], depth + 1), place_str(rv["place"]), "raw" if k == "rawptr" else "ref")
     if k == "agg":
-        return ("agg", rv.get("agg"), rv.get("def") if rv.get("agg") == "closure" else rv.get("adt"), rv.get("variant"), tuple(expr(F, B, o, depth + 1) for o in rv["ops"]))
+        return ("agg", rv.get("agg"), rv.get("def") if rv.get("agg") == "closure" else rv.get("adt"), rv.get("variant"), tuple(expr(F, B, o, depth + 1) for o in rv["ops"]), tuple(rv.get("fields") or ()), rv.get("vi"))
     if k == "discr":
         return ("discr", place_expr(F, B, rv["place"], depth + 1))
     return ("unknown", k)
@@ -154,7 +168,136 @@ def _step_call(B, d):
     return None
 
 
+def path_cases(F, b, max_paths=48):
+    """Path-sensitive value summary of a loop-free function whose result is assigned on several branches
+    (`if addr & MASK == 0 { Variant::First } else { Variant::Second }`): [(conditions, result expression)] with
+    conditions = [(discriminant expression, 'eq', value) | (discriminant expression, 'notin', [values])], all over the arguments.
+    None if the body has a loop, too many paths or something the extractor does not describe."""
+    from . import cfg
+
+    B = cfg.Body(b)
+    blocks = b["blocks"]
+    out = []
+    budget = [0]
+
+    def opx(op, env):
+        c = operand_const(op)
+        if c is not None:
+            return ("const", c["int"]) if "int" in c else ("constx", c.get("text"))
+        pl = operand_place(op)
+        if pl is None:
+            return ("unknown", "operand")
+        base = env.get(pl["l"])
+        if base is None:
+            base = ("arg", pl["l"]) if B.is_arg(pl["l"]) else ("unknown", "local _%d undefined on this path" % pl["l"])
+        return project(base, pl) if pl["p"] else base
+
+    def rvx(rv, env):
+        k = rv["k"]
+        if k == "use":
+            return opx(rv["op"], env)
+        if k == "cast":
+            return ("cast", rv["cast"].split("(")[0], opx(rv["op"], env), F.ts(rv["ty"]))
+        if k == "binop":
+            return ("bin", rv["op"], opx(rv["a"], env), opx(rv["b"], env))
+        if k == "unop":
+            return ("un", rv["op"], opx(rv["a"], env), rv.get("_lhs_ty"))
+        if k in ("ref", "rawptr"):
+            base = env.get(rv["place"]["l"])
+            if base is None:
+                base = ("arg", rv["place"]["l"]) if B.is_arg(rv["place"]["l"]) else ("unknown", "undefined")
+            inner = project(base, rv["place"]) if rv["place"]["p"] else base
+            return ("addr", inner, place_str(rv["place"]), "raw" if k == "rawptr" else "ref")
+        if k == "agg":
+            return ("agg", rv.get("agg"), rv.get("def") if rv.get("agg") == "closure" else rv.get("adt"), rv.get("variant"), tuple(opx(o, env) for o in rv["ops"]), tuple(rv.get("fields") or ()), rv.get("vi"))
+        if k == "discr":
+            base = env.get(rv["place"]["l"])
+            if base is None:
+                base = ("arg", rv["place"]["l"]) if B.is_arg(rv["place"]["l"]) else ("unknown", "undefined")
+            return ("discr", project(base, rv["place"]) if rv["place"]["p"] else base)
+        return ("unknown", k)
+
+    def go(bi, env, conds, seen):
+        if budget[0] > max_paths:
+            raise OverflowError
+        if bi in seen:
+            raise OverflowError  # a loop
+        seen = seen | {bi}
+        env = dict(env)
+        bl = blocks[bi]
+        for st in bl["stmts"]:
+            if st["k"] != "assign":
+                continue
+            lhs = st["lhs"]
+            if lhs["p"]:
+                env[lhs["l"]] = ("unknown", "partial write")
+            else:
+                rv0 = st["rv"]
+                if rv0["k"] == "unop":
+                    rv0 = dict(rv0)
+                    rv0["_lhs_ty"] = F.ts(b["locals"][lhs["l"]]["ty"])
+                env[lhs["l"]] = rvx(rv0, env)
+        t = bl["term"]
+        k = t["k"]
+        if k == "return":
+            budget[0] += 1
+            out.append((list(conds), env.get(0, ("unknown", "no result"))))
+        elif k == "goto":
+            go(t["target"], env, conds, seen)
+        elif k == "switch":
+            d = opx(t["discr"], env)
+            by_tgt = {}
+            for v, tg in t["arms"]:
+                by_tgt.setdefault(tg, []).append(v)
+            for tg, vs in by_tgt.items():
+                if tg == t["otherwise"]:
+                    continue
+                for v in vs:
+                    go(tg, env, conds + [(d, "eq", v)], seen)
+            other_vals = [v for v, tg in t["arms"] if tg != t["otherwise"]]
+            if blocks[t["otherwise"]]["term"]["k"] != "unreachable":
+                go(t["otherwise"], env, conds + [(d, "notin", other_vals)], seen)
+        elif k == "call":
+            if t.get("target") is None:
+                return  # diverges
+            c = callee_of(t)
+            args = tuple(opx(a, env) for a in t["args"])
+            r = t.get("resolved")
+            gargs = r["args"] if isinstance(r, dict) else (t.get("callee_args") or [])
+            if not t["dest"]["p"]:
+                if c in IDENTITY_CALLS and args:
+                    env[t["dest"]["l"]] = args[0]
+                else:
+                    name = (F.body(c) or {}).get("name") or t.get("callee_name") or c
+                    env[t["dest"]["l"]] = ("call", c, name, args, tuple(F.ts(a["t"]) for a in gargs if "t" in a), bi, tuple(a["t"] for a in gargs if "t" in a), tuple(("t", a["t"]) if "t" in a else ("o", None) for a in gargs))
+            go(t["target"], env, conds, seen)
+        elif k in ("drop", "assert"):
+            if t.get("target") is not None:
+                go(t["target"], env, conds, seen)
+        # unreachable / resume / terminate: no result
+
+    try:
+        go(0, {}, [], frozenset())
+    except (OverflowError, RecursionError):
+        return None
+    if not out or any(has_unknown(v) or any(has_unknown(c[0]) for c in cs) for cs, v in out):
+        return None
+    return out
+
+
 _INLINE_F = [None]
+
+
+def fn_value(F, b):
+    """Result expression of a function body: one def-use expression, or a path-sensitive `cases` summary."""
+    from . import cfg
+
+    r = local_expr(F, cfg.Body(b), 0, 0)
+    if has_unknown(r):
+        cs = path_cases(F, b)
+        if cs:
+            return ("cases", tuple((tuple(c), v) for c, v in cs))
+    return r
 
 
 def set_facts(F):
@@ -193,6 +336,10 @@ def inline_call(F, e, depth=0):
         cache[e[1]] = None  # recursion guard
         CB = cfg.Body(b)
         r = local_expr(F, CB, 0, 0)
+        if has_unknown(r):
+            # the result is assigned on several branches: a path-sensitive summary instead of one expression
+            cs = path_cases(F, b)
+            r = ("cases", tuple((tuple(c), v) for c, v in cs)) if cs else r
         cache[e[1]] = None if has_unknown(r) else r
     r = cache[e[1]]
     if r is None:
@@ -313,12 +460,29 @@ def eval_int(e, leaf, bits=64):
         if a is None:
             return None
         if e[1] == "Not":
-            if e[2][0] == "bin" and e[2][1] in ("Eq", "Ne", "Lt", "Le", "Gt", "Ge"):
+            if (len(e) > 3 and e[3] == "bool") or (e[2][0] == "bin" and e[2][1] in ("Eq", "Ne", "Lt", "Le", "Gt", "Ge")):
                 return int(not a)
             return (~a) & mask
         if e[1] == "Neg":
             return (-a) & mask
         return None
+    if k == "cases":
+        for conds, val in e[1]:
+            ok = True
+            for d, rel, v in conds:
+                x = eval_int(d, leaf, bits)
+                if x is None:
+                    return None
+                if (rel == "eq" and x != v) or (rel == "notin" and x in v):
+                    ok = False
+                    break
+            if ok:
+                return eval_int(val, leaf, bits)
+        return None
+    if k == "discr":
+        return eval_int(e[1], leaf, bits)
+    if k == "agg" and e[1] == "adt" and not e[4] and len(e) > 6 and e[6] is not None:
+        return e[6]  # a fieldless enum value is its variant index (as its discriminant reads)
     if k == "tfield":
         return eval_int(e[1], leaf, bits) if e[2] == 0 else None
     if k == "addr":
